@@ -154,7 +154,19 @@ def _same_body(ex, r, op, n, nouter, body):
         e = s_eq(r.body(o, j), body(o, j))
     except (Unsupported, SymRaise):
         return False
-    return ex.entails(z3.Implies(z3.And(j >= 0, j < tonum(n)), toz(tobool(e)) if not isinstance(e, bool) else z3.BoolVal(e)))
+    from . import opaque, numeval
+    if isinstance(e, bool):
+        return e
+    try:
+        va, vb = r.body(o, j), body(o, j)
+        if not isinstance(va, (bool,)) and not (isz(va) and z3.is_bool(va)):
+            comps = lambda v: [toreal(v.re), toreal(v.im)] if isinstance(v, Cx) else [toreal(v)]
+            ca, cb = comps(va), comps(vb)
+            if len(ca) == len(cb) and numeval.clearly_different(ex.pc, ca, cb, guard=z3.And(j >= 0, j < tonum(n), *[x >= 0 for x in o])):
+                return False
+    except (Unsupported, SymRaise, z3.Z3Exception):
+        pass
+    return opaque.entails_ax(ex, z3.Implies(z3.And(j >= 0, j < tonum(n)), toz(tobool(e))))
 
 
 def _make(ex, op, n, nouter, body, kind):
@@ -305,3 +317,17 @@ def sum_complement_lemmas(ex):
             if ex.entails(z3.Implies(z3.And(j >= 0, j < tonum(r1.n)), body)):
                 out.append(z3.Implies(tonum(r1.n) >= 0, tonum(r1.result(())) + tonum(r2.result(())) == tonum(r1.n)))
     return out
+
+
+def scale_lemma(ex, arr1, arr2, c):
+    """linearity of sums: if arr1[j] = c * arr2[j] element-wise (checked, c independent of j) then sum(arr1) = c * sum(arr2).
+    arr1, arr2: 1-D real arrays over the same range.  Returns a z3 Bool or None."""
+    from . import opaque
+    if not ex.entails(tobool(s_eq(arr1.shape[0], arr2.shape[0]))):
+        return None
+    j = ex.newvar('js', 'int')
+    prem = s_eq(arr1.elem((j,)), s_mul(c, arr2.elem((j,))))
+    if not (prem is True or opaque.entails_ax(ex, z3.Implies(z3.And(j >= 0, j < tonum(arr1.shape[0])), prem))):
+        return None
+    s1, s2 = reduce_(ex, 'sum', arr1, 0), reduce_(ex, 'sum', arr2, 0)
+    return toreal(s1) == toreal(c) * toreal(s2)
